@@ -3,7 +3,7 @@ from typing import List, Optional, Pattern, Union
 
 from pydantic import field_validator
 
-from pycfmodel.action_expander import _expand_action
+from pycfmodel.action_expander import _expand_action, _expand_actions
 from pycfmodel.model.base import FunctionDict
 from pycfmodel.model.resources.properties.property import Property
 from pycfmodel.model.resources.properties.statement_condition import StatementCondition
@@ -86,8 +86,10 @@ class Statement(Property):
         for action in self.get_action_list(include_action=True, include_not_action=False):
             action_list.update(_expand_action(action))
 
-        for not_action in self.get_action_list(include_not_action=True, include_action=False):
-            action_list.update(_expand_action(not_action, not_action=True))
+        if self.NotAction is not None:
+            # NotAction matches everything except ALL of its patterns: complement of the union, not union of complements
+            not_actions = self.get_action_list(include_not_action=True, include_action=False)
+            action_list.update(_expand_actions(not_actions, not_action=True))
 
         return sorted(action_list)
 
